@@ -403,6 +403,40 @@ class Gen:
                     self.log.append(f"PUBKEY {src.rel}::{nm} = base58 {m.group(1)} decoded to 32 bytes")
                     self.functions.append(dict(kind="item", name=nm, file=src.rel, lines=[line_of(src.text, m.start())] * 2,
                                                sha=hashlib.sha256(m.group(0).encode()).hexdigest()[:16], tags=list(self.tags)))
+            elif cmd == "discriminants":
+                # //@ discriminants <file> <Enum> <spec_fn_name> <int type>: D1 - the number -> variant table of a #[repr(uN)] fieldless enum, generated from the
+                # declaration order (implicit discriminants count up from the previous one, explicit `= <int literal>` is honoured); the
+                # TryFromPrimitive / `as` conversions are trusted to follow exactly this table
+                src = Source.get(os.path.join(self.root, toks[0]))
+                ename, fname, ity = toks[1], toks[2], (toks[3] if len(toks) > 3 else "u16")
+                r = src.find_block(r"^\s*(pub(\([a-z]+\))?\s+)?enum\s+" + re.escape(ename) + r"\b")
+                if r is None or r[1] is None:
+                    raise Undecided(f"lost anchor: enum {ename} not found in {src.rel}")
+                b, ob, e = r
+                bodym = src.mask[ob + 1:e - 1]
+                nxt, rows = 0, []
+                for part in split_top(bodym):
+                    part = " ".join(l for l in part.split("\n") if not l.strip().startswith("#[")).strip()
+                    part = re.sub(r"#\[[^\]]*\]", "", part).strip()
+                    if not part:
+                        continue
+                    mv = re.fullmatch(r"(\w+)(?:\s*=\s*(\d[\d_]*))?", part)
+                    if not mv:
+                        raise Undecided(f"enum {ename} in {src.rel}: variant `{part[:40]}` is outside the D1 subset (fieldless, integer-literal discriminants)")
+                    if mv.group(2):
+                        nxt = int(mv.group(2).replace("_", ""))
+                    rows.append((nxt, mv.group(1)))
+                    nxt += 1
+                ref = ("repo", src.rel, line_of(src.text, b))
+                self.out.emit(f"/// generated (D1) from the declaration of enum {ename} in {src.rel}: discriminant -> variant", None, list(self.tags))
+                self.out.emit(f"pub open spec fn {fname}(n: {ity}) -> Option<{ename}> {{", ref, list(self.tags))
+                for (k, v) in rows:
+                    self.out.emit(f"    if n == {k} {{ Some({ename}::{v}) }} else", ref, list(self.tags))
+                self.out.emit("    { None }", None, list(self.tags))
+                self.out.emit("}", None, list(self.tags))
+                self.log.append(f"D1 {fname}: {len(rows)} discriminants of {src.rel}::{ename} tabulated from its declaration")
+                self.functions.append(dict(kind="item", name=fname, file=src.rel, lines=[line_of(src.text, b), line_of(src.text, e - 1)],
+                                           sha=hashlib.sha256(src.text[b:e].encode()).hexdigest()[:16], tags=list(self.tags)))
             elif cmd == "constraints":
                 # //@ constraints <file> <Struct> [method:<name> ...]
                 src = Source.get(os.path.join(self.root, toks[0]))
